@@ -314,9 +314,10 @@ func interopRead(c *vm.Ctx, r *vm.Rand, k *kind) {
 func checkWithData(c *vm.Ctx, r *vm.Rand, k *kind) {
 	var sizes []int
 	if k.pk.Blocks {
-		sizes = []int{1, 2, 3, 15, 16, 17, 31, 32, 33, 64, 65, 128, 129, 255, 256}
+		// a saved section always carries its palette, whatever its size (the network form switches to direct ids above 256)
+		sizes = []int{1, 2, 3, 15, 16, 17, 31, 32, 33, 64, 65, 128, 129, 255, 256, 257, 300, 512, 513, 1000, 2048, 2049, 4096}
 	} else {
-		sizes = []int{1, 2, 3, 4, 5, 6, 7, 8}
+		sizes = []int{1, 2, 3, 4, 5, 6, 7, 8, 9, 12, 16, 17, 40}
 	}
 	np := sizes[r.Intn(len(sizes))]
 	if r.Intn(8) == 0 {
@@ -376,9 +377,37 @@ func checkWithData(c *vm.Ctx, r *vm.Rand, k *kind) {
 	h := &hist{k: k, ops: []string{fmt.Sprintf("WithData(palette of %d entries, %d-bit indices, %d longs)", np, width, len(data))}}
 	c.Eval(vm.HashStr("withdata", k.name, fmt.Sprint(np, r.Uint64())), true)
 	var ct cont
-	if c.Guard("withdata/ctor/"+k.name, h.wit, func() { ct = k.withData(data, pal) }) {
+	palArg := pal
+	spare := r.Intn(3) == 0
+	if spare {
+		// the caller's slice has room behind it, and the caller keeps using it afterwards
+		palArg = append(make([]int, 0, len(pal)+r.Range(1, 600)), pal...)
+		h.ops = append(h.ops, fmt.Sprintf("palette slice has capacity %d", cap(palArg)))
+	}
+	if c.Guard("withdata/ctor/"+k.name, h.wit, func() { ct = k.withData(data, palArg) }) {
 		return
 	}
+	defer func() {
+		// the container keeps working as an array: new values at random positions, compared with the model
+		c.Guard("withdata/history/"+k.name, h.wit, func() {
+			for j := 0; j < 60; j++ {
+				i, v := r.Intn(k.length), r.Intn(k.pk.RegistrySize)
+				h.ops = append(h.ops, fmt.Sprintf("Set(%d,%d)", i, v))
+				ct.Set(i, v)
+				model[i] = v
+			}
+			for i := range model {
+				if g := ct.Get(i); g != model[i] {
+					c.Violation(fmt.Sprintf("withdata/history/%s", k.name), fmt.Sprintf("%s built from a saved palette of %d entries, after %d Set calls: Get(%d)=%d, model %d", k.name, np, 60, i, g, model[i]), h.wit())
+					return
+				}
+			}
+			c.Cover("withdata." + k.name + ".history-after-construction")
+			if spare {
+				c.Cover("withdata." + k.name + ".palette-slice-with-spare-capacity")
+			}
+		})
+	}()
 	c.Guard("withdata/compare/"+k.name, h.wit, func() {
 		for i := range model {
 			if g := ct.Get(i); g != model[i] {
